@@ -1,8 +1,8 @@
 ---- MODULE SceneGraph_MBT ----
 (* Export wrapper (binding B1): prints the labelled transition system of the bounded Spec-layer *)
-(* model.  One JSON line per EDGE: [s, a, d, o, q] = source state, action, target state,        *)
-(* outputs of the step (kill events, requests resolved / cancelled) and the observation SObs a  *)
-(* correct implementation must show in the target state.                                        *)
+(* model.  One JSON line per EDGE: [s, a, d, o, q, t] = source state, action, target state,     *)
+(* outputs of the step (kill events, requests resolved / cancelled), the observation SObs a     *)
+(* correct implementation must show in the target state, triage labels of the step.             *)
 EXTENDS SceneGraph, Json
 CONSTANTS Depth,
           AKinds,    \* announce kinds exported in this run
@@ -11,19 +11,20 @@ CONSTANTS Depth,
 Bound == TLCGet("level") <= Depth
 \* compact state: [full |-> <<local, parent, region>>], tracked, pending
 St == <<[f \in FullIDs |-> <<obj[f].local, obj[f].parent, obj[f].region>>], tracked, pending>>
-E(a) == PrintT(ToJson([s |-> St, a |-> a, d |-> St', o |-> out', q |-> SObs(obj', tracked')]))
+E(a, t) == PrintT(ToJson([s |-> St, a |-> a, d |-> St', o |-> out', q |-> SObs(obj', tracked'), t |-> t]))
 
 MInit == Init /\ PrintT(ToJson([init |-> St, q |-> SObs(obj, tracked)]))
 MNext ==
     \/ \E k \in AKinds, f \in FullIDs, l \in Locals, p \in Locals \cup {0}, r \in Regions :
-          Announce(k, f, l, p, r) /\ E([n |-> "Announce", kind |-> k, f |-> f, l |-> l, p |-> p, r |-> r])
+          Announce(k, f, l, p, r) /\ E([n |-> "Announce", kind |-> k, f |-> f, l |-> l, p |-> p, r |-> r],
+                                       Tags("Announce", k, f, r, l))
     \/ \E k \in TKinds, r \in Regions, l \in Locals :
-          Touch(k, r, l) /\ E([n |-> "Touch", kind |-> k, r |-> r, l |-> l])
-    \/ \E f \in FullIDs : Props(f) /\ E([n |-> "Props", f |-> f])
-    \/ \E r \in Trackable, l \in Locals : Kill(r, l) /\ E([n |-> "Kill", r |-> r, l |-> l])
-    \/ \E r \in Trackable : Track(r) /\ E([n |-> "Track", r |-> r])
-    \/ \E r \in Trackable : Teardown(r) /\ E([n |-> "Teardown", r |-> r])
+          Touch(k, r, l) /\ E([n |-> "Touch", kind |-> k, r |-> r, l |-> l], Tags("Touch", k, "-", r, l))
+    \/ \E f \in FullIDs : Props(f) /\ E([n |-> "Props", f |-> f], Tags("Props", "-", f, "-", 0))
+    \/ \E r \in Trackable, l \in Locals : Kill(r, l) /\ E([n |-> "Kill", r |-> r, l |-> l], Tags("Kill", "-", "-", r, l))
+    \/ \E r \in Trackable : Track(r) /\ E([n |-> "Track", r |-> r], {})
+    \/ \E r \in Trackable : Teardown(r) /\ E([n |-> "Teardown", r |-> r], Tags("Teardown", "-", "-", r, 0))
     \/ \E r \in Trackable, l \in ReqLocals, ty \in ReqTypes :
-          Request(r, l, ty) /\ E([n |-> "Request", r |-> r, l |-> l, ty |-> ty])
+          Request(r, l, ty) /\ E([n |-> "Request", r |-> r, l |-> l, ty |-> ty], {})
 MSpec == MInit /\ [][MNext]_svars
 ====
